@@ -128,7 +128,8 @@ def _gen_callout(rng, shape=None):
              loc=loc, fru=gen_fru(rng, shape.get('fru')), pce=None, mru=None)
     pce = shape.get('pce', rng.choice([None, None, 1, 4, 9]))
     if pce is not None:
-        c['pce'] = dict(flags=rng.randrange(256), mtm=padded(rng, 8), sn=padded(rng, 12),
+        c['pce'] = dict(flags=rng.randrange(256), mtm=padded(rng, 8) if rng.random() < .8 else [0] * 8,
+                        sn=padded(rng, 12),
                         name=text(rtext(rng, pce)) if pce else [])
         if pce:
             # name is NUL padded to a multiple of 4 by the platform
